@@ -18,6 +18,7 @@ structure DbInv (d : Db) : Prop where
   tracker_fk : ∀ k t, d.trackers k = some t → (d.appts k).isSome = true ∧ t.status.accepted = true
   user_keys : ∀ u, (d.users u).isSome = true → u ∈ d.userKeys
   appt_keys : ∀ k, (d.appts k).isSome = true → k ∈ d.apptKeys
+  appt_nodup : d.apptKeys.Nodup
 
 theorem DbInv.empty : DbInv Db.empty := by
   constructor <;> simp [Db.empty]
@@ -33,6 +34,17 @@ theorem mem_addKey {α : Type} [DecidableEq α] (k x : α) (l : List α) :
       · exact h
       · exact hx
   · simp [or_comm]
+
+theorem nodup_addKey {α : Type} [DecidableEq α] (k : α) (l : List α) (h : l.Nodup) : (Db.addKey k l).Nodup := by
+  unfold Db.addKey
+  split
+  · exact h
+  · rename_i hk
+    refine List.nodup_append.mpr ⟨h, by simp, ?_⟩
+    intro x hx y hy
+    simp only [List.mem_singleton] at hy
+    subst hy
+    intro e; subst e; exact hk hx
 
 theorem DbInv.storeUser {d d' : Db} (h : DbInv d) {u : User} {i : UserInfo}
     (hs : d.storeUser u i = some d') : DbInv d' := by
@@ -56,6 +68,7 @@ theorem DbInv.storeUser {d d' : Db} (h : DbInv d) {u : User} {i : UserInfo}
       · exact Or.inl e
       · simp only [e, ↓reduceIte] at hx; exact Or.inr (h.user_keys x hx)
     · exact h.appt_keys
+    · exact h.appt_nodup
 
 theorem DbInv.updateUser {d : Db} (h : DbInv d) (u : User) (i : UserInfo) : DbInv (d.updateUser u i) := by
   unfold Db.updateUser
@@ -77,6 +90,7 @@ theorem DbInv.updateUser {d : Db} (h : DbInv d) (u : User) (i : UserInfo) : DbIn
       · subst e; exact h.user_keys x (by simp [ho])
       · simp only [e, ↓reduceIte] at hx; exact h.user_keys x hx
     · exact h.appt_keys
+    · exact h.appt_nodup
 
 theorem updateUser_dom (d : Db) (u : User) (i : UserInfo) (x : User) :
     ((d.updateUser u i).users x).isSome = (d.users x).isSome := by
@@ -109,6 +123,7 @@ theorem DbInv.setSlots {d : Db} (h : DbInv d) (u : User) (n : Nat) : DbInv (d.se
       · subst e; exact h.user_keys x (by simp [ho])
       · simp only [e, ↓reduceIte] at hx; exact h.user_keys x hx
     · exact h.appt_keys
+    · exact h.appt_nodup
 
 theorem setSlots_dom (d : Db) (u : User) (n : Nat) (x : User) :
     ((d.setSlots u n).users x).isSome = (d.users x).isSome := by
@@ -152,6 +167,7 @@ theorem DbInv.storeAppt {d d' : Db} (h : DbInv d) {k : Uuid} {a : Appt} (hu : a.
       by_cases e : x = k
       · exact Or.inl e
       · simp only [e, ↓reduceIte] at hx; exact Or.inr (h.appt_keys x hx)
+    · exact nodup_addKey k _ h.appt_nodup
   · cases hs
 
 theorem DbInv.updateAppt {d d' : Db} (h : DbInv d) {k : Uuid} {a : Appt}
@@ -185,6 +201,7 @@ theorem DbInv.updateAppt {d d' : Db} (h : DbInv d) {k : Uuid} {a : Appt}
       by_cases e : x = k
       · subst e; exact h.appt_keys x (by simp [ho])
       · simp only [e, ↓reduceIte] at hx; exact h.appt_keys x hx
+    · exact h.appt_nodup
 
 theorem DbInv.storeTracker {d d' : Db} (h : DbInv d) {k : Uuid} {t : Tracker}
     (hs : d.storeTracker k t = some d') : DbInv d' ∧ d'.users = d.users ∧ d'.appts = d.appts := by
@@ -209,6 +226,7 @@ theorem DbInv.storeTracker {d d' : Db} (h : DbInv d) {k : Uuid} {t : Tracker}
           exact h.tracker_fk x t' ht
       · exact h.user_keys
       · exact h.appt_keys
+      · exact h.appt_nodup
     · cases hs
 
 theorem DbInv.updateTrackerStatus {d d' : Db} (h : DbInv d) {k : Uuid} {st : CStatus}
@@ -237,6 +255,7 @@ theorem DbInv.updateTrackerStatus {d d' : Db} (h : DbInv d) {k : Uuid} {st : CSt
             exact h.tracker_fk x t' ht'
         · exact h.user_keys
         · exact h.appt_keys
+        · exact h.appt_nodup
       · intro x
         simp only
         by_cases e : x = k
@@ -270,9 +289,10 @@ theorem DbInv.dropAppts {d : Db} (h : DbInv d) (ks : List Uuid) : DbInv (d.dropA
     split at hk
     · cases hk
     · exact h.appt_keys k hk
+  · exact h.appt_nodup
 
 theorem DbInv.log_irrelevant {d : Db} (h : DbInv d) (l : List DbWrite) : DbInv { d with log := l } :=
-  ⟨h.appt_fk, h.tracker_fk, h.user_keys, h.appt_keys⟩
+  ⟨h.appt_fk, h.tracker_fk, h.user_keys, h.appt_keys, h.appt_nodup⟩
 
 theorem DbInv.removeAppts {d : Db} (h : DbInv d) (ks : List Uuid) : DbInv (d.removeAppts ks) := by
   unfold Db.removeAppts
@@ -340,6 +360,7 @@ theorem DbInv.removeUsers {d : Db} (h : DbInv d) (us : List User) : DbInv (d.rem
     split at hk
     · cases hk
     · exact h.appt_keys k hk
+  · exact h.appt_nodup
 
 end Teos
 
@@ -1025,7 +1046,7 @@ theorem tinv_storeTriggered (s : Tower) (node : Node) (k : Uuid) (a : Appt) (d :
     TInv (storeTriggeredAppointment s node k a d).1 := by
   unfold storeTriggeredAppointment
   cases hdc : a.blob.decrypt d with
-  | none => exact h
+  | none => exact (tinv_delete_norefund s [k] h).1
   | some p =>
     simp only
     have h1 := (tinv_storeAppointment s k a h hu hk).1
